@@ -4,6 +4,7 @@ from hypothesis import strategies as st
 
 from vlib.gen import names as G
 from vlib.gen import rdata as R
+from vlib.ref import wire as W
 from vlib.runner import Part, Violation, exc_key
 
 ID = "C05"
@@ -139,6 +140,30 @@ def run(case):
     tg = g.to_text()
     gb = parse(tg, "generic")
     same(gb, "generic")
+    # 2b. relativization target different from the origin (what a zone reader passes after $ORIGIN):
+    # ordinary and generic text must give the same record, with exactly the names at/below the
+    # target held relative
+    if origin is not None and case.get("relativize_to") and "unknown" not in flags and tname not in ("TSIG", "TKEY"):
+        from vlib.props.c02 import _names_in
+
+        ol = G.unhexl(case["origin"])
+        zl = {"parent": ol[1:] if len(ol) > 1 else ol, "root": [b""], "unrelated": [b"elsewhere", b"test", b""], "same": ol}[case["relativize_to"]]
+        z = dns.name.Name(zl)
+        kw = dict(origin=origin, relativize=True, relativize_to=z)
+        r_txt = parse(t_plain, "plain relativize_to", **kw)
+        r_gen = parse(tg, "generic relativize_to", **kw)
+        same(r_txt, "plain relativize_to", z, fold=True)
+        same(r_gen, "generic relativize_to", z, fold=True)
+        if not (r_txt == r_gen):
+            raise Violation("roundtrip", f"{tname}: with origin {origin} and relativize_to {z} the generic text gives {r_gen.to_text()!r}, the ordinary text {r_txt.to_text()!r}", "relativize_to-generic:" + tname)
+        zkey = W.name_key(zl)
+        emitted = [G.unhexl(n) for n in case.get("names", [])]
+        want_rel = sum(1 for n in emitted if W.name_key(n)[: len(zkey)] == zkey)
+        for label, r in (("ordinary", r_txt), ("generic", r_gen)):
+            held = _names_in(r)
+            if len(held) == len(emitted) and sum(1 for n in held if not n.is_absolute()) != want_rel:
+                raise Violation("roundtrip", f"{tname}: {label} text with relativize_to {z}: {want_rel} embedded names lie at/below it, record holds {held!r}", "relativize_to-count:" + tname)
+        classes.append("relativize_to:" + case["relativize_to"])
     if "unknown" in flags:
         if type(gb) is not dns.rdata.GenericRdata:
             raise Violation("generic", f"unknown type {rdtype} parsed as {type(gb).__name__}", "generic-class")
@@ -175,6 +200,7 @@ def cases(draw, types):
     case = draw(R.record(ctx=ctx, name=tname))
     case["origin"] = None if origin is None else G.hexl(origin)
     case["relativize"] = draw(st.booleans())
+    case["relativize_to"] = draw(st.sampled_from([None, None, "parent", "parent", "root", "unrelated", "same"]))
     style = {}
     if draw(st.booleans()):
         style["base64_chunk_size"] = draw(st.sampled_from([0, 1, 4, 32, 57]))
@@ -557,7 +583,7 @@ def run_fieldlimit(case):
 def parts(tier):
     per_type = {"quick": 30, "thorough": 300}[tier]
     req = {("acc:" + t): per_type for t in TEXT_TYPES}
-    req.update({"relative-name-printed": 200, "derelativized": 200, "escape": 500, "multi-chunk": 100, "text-lossy": 50})
+    req.update({"relativize_to:parent": 300, "relativize_to:root": 100, "relative-name-printed": 200, "derelativized": 200, "escape": 500, "multi-chunk": 100, "text-lossy": 50})
     n_types = len(TEXT_TYPES)
     return [
         Part("text", run, strategy=cases(TEXT_TYPES), n={"quick": 400 * n_types, "thorough": 5000 * n_types},
